@@ -178,3 +178,13 @@ Definition file_index_first : bool :=
   | [p; i; r] => str_eqb p (b "s.push") && str_eqb i (b "s.graph.Index") && str_eqb r (b "s.restoreDuplicates")
   | _ => false
   end.
+
+(* A Delete whose storage.Delete fails AFTER the resolver entries, the graph node and
+   index.json were already updated (oci.go delete(): Untag, graph.Remove, saveIndex, then
+   storage.Delete; e.g. EPERM / a file still open on NTFS): the blob stays.  Not part of
+   [oop]: the theorems are about histories of operations that complete; see
+   C07_store_delete_error_refuted. *)
+Definition delete_unlink_fails (content : node -> list node) (isman : node -> bool)
+           (s : ostore) (n : node) : ostore :=
+  let s' := fst (ostep true true true content isman 0 s (PDelete n)) in
+  mkO (o_blobs s) (o_bydigest s') (o_tagged s') (o_graph s') (o_dbydigest s') (o_dtagged s').
